@@ -11,6 +11,8 @@ from einx._src.namedtensor.stage1 import parse_op
 
 TOK12 = ["a", "b", "1", " ", "(", ")", "[", "]", "...", "->", ",", "+"]
 TOK13 = TOK12 + ["|"]
+BS = chr(92)  # backslash (written with chr() because CrossHair reads condition docstrings raw)
+TOKBS = ["a", " ", "(", ")", "[", "...", "->", BS + "d", BS + "1", BS + BS, BS + "n", BS + "g<0>", "%EXPR%", "{0}", "%s"]
 TOK17 = TOK12 + ["|", "ab", "_x", "0", "2"]
 SP8 = ["a", "1", " ", "(a b)", "[a]", "...", " -> ", ","]
 TOK9 = ["a", "1", " ", "(", ")", "[", "]", "...", "->"]
